@@ -389,7 +389,8 @@ def _cb_scenario(which, stream: int, c0: int, c1: int, c2: int, c3: int, tokform
     """A .waitForTaskToken task: the worker receives the token and (per `stream`) the harness presents
     0: the valid token once, 1: twice, 2: a forged token then the valid one, 3: ordinary reply first then the valid
     token, 4: the valid token as SendTaskFailure, 5: only a forged token (task must stay pending until it times out),
-    6: two callback Tasks in sequence, each answered with the token it received, 7: a retried callback Task."""
+    6: two callback Tasks in sequence, each answered with the token it received, 7: a retried callback Task,
+    8: SendTaskSuccess whose output object happens to have a member named errorType ("exactly the supplied output")."""
     t = {"Type": "Task", "Resource": "arn:aws:states:local::rpcmessage:invoke.waitForTaskToken", "TimeoutSeconds": 20,
          "Parameters": {"FunctionName": "arn:aws:rpcmessage:local::function:fw", "Payload": {"token.$": TOKEN_PATHS[tokform]}},
          "ResultPath": "$.cb", "End": True}
@@ -428,6 +429,9 @@ def _cb_scenario(which, stream: int, c0: int, c1: int, c2: int, c3: int, tokform
             return "" if p == ("FAILED", "States.Timeout") else "C15 forged token only: outcome %r" % (p,)
         if stream == 4:
             return "" if p == ("FAILED", "E1") else "C15 SendTaskFailure: outcome %r" % (p,)
+        if stream == 8:
+            return "" if p[0] == "SUCCEEDED" and p[1].get("cb") == {"errorType": "E9", "out": 1} else \
+                "C15 SendTaskSuccess with the output {\"errorType\": \"E9\", \"out\": 1} completed the task with %r" % (p,)
         if p[0] != "SUCCEEDED" or p[1].get("cb") != {"out": 1}:
             return "C15 callback outcome %r" % (p,)
         if stream == 6 and p[1].get("cb2") != {"out": 1}:
@@ -454,13 +458,13 @@ def _cb_scenario(which, stream: int, c0: int, c1: int, c2: int, c3: int, tokform
             injected += 1
             tok = state["tok"]
             forged = _b64.b64encode(b"zz.waitForTaskToken:asl_workflow_reply_to-i1").decode()
-            seq = {0: [tok], 1: [tok, tok], 2: [forged, tok], 3: [tok], 4: ["F" + tok], 5: [forged], 6: [tok],
+            seq = {0: [tok], 1: [tok, tok], 2: [forged, tok], 3: [tok], 4: ["F" + tok], 5: [forged], 6: [tok], 8: [tok],
                    7: ["F" + tok] if injected == 1 else [tok]}[stream]
             for tk in seq:
                 if tk.startswith("F") and stream in (4, 7):
                     r = _call(fe2, "SendTaskFailure", taskToken=tk[1:], error="E1", cause="why")
                 else:
-                    r = _call(fe2, "SendTaskSuccess", taskToken=tk, output='{"out": 1}')
+                    r = _call(fe2, "SendTaskSuccess", taskToken=tk, output='{"errorType": "E9", "out": 1}' if stream == 8 else '{"out": 1}')
                 if r[1] != 200:
                     return "C15 callback API answered %r" % (r,)
         if not run.step(None):
@@ -488,7 +492,7 @@ def child_sync_runs(form: int, cfail: bool, slow: bool, par: bool, c0: int, c1: 
 @condition(timeout={"quick": 300, "thorough": 900}, functions=scn.ENGINE_FUNCS + ["aws_api_SendTaskSuccess/Failure", "handle_rpcmessage_response (callbacks)"])
 def callback_runs(stream: int, c0: int, c1: int, c2: int, c3: int) -> str:
     """
-    requires: 0 <= stream < 8
+    requires: 0 <= stream < 9
     ensures: _ == ""
     """
     return _cb_scenario({"C15", "C02", "C03"}, stream, c0, c1, c2, c3)
